@@ -157,7 +157,7 @@ def run(ctx):
                         ctx.ob("R05.5", key + "/foreign PROPOSAL_COUNT write", False, sites=[e.site], detail="PROPOSAL_COUNT written outside proposal creation")
     ctx.floor("R05.1", "Executed writes", n_exec, 2)
     ctx.floor("R05.3", "Rejected writes", n_close, 2)
-    ctx.floor("R05.4", "non-creating PROPOSALS writes", n_nc, 10)
+    ctx.floor("R05.4", "non-creating PROPOSALS writes", n_nc, 6)
     ctx.floor("R05.5", "creating PROPOSALS writes", n_create, 2)
     check_authorize(ctx)
     # other entry points must not touch proposals
